@@ -65,7 +65,9 @@ def mutants_for(prop):
         if not os.path.exists(mp):
             continue
         meta = json.load(open(mp))
-        if prop in meta.get("caught_by", []) or meta.get("property") == prop:
+        if prop in meta.get("caught_by", []) or (meta.get("property") == prop and not (meta.get("open_miss") or meta.get("own_miss"))):
+            # (a confirmed change the own check is known not to report -- `open_miss` / `own_miss` in its meta, DESIGN.md §9.8 -- is not
+            # an expectation of the self-test; it stays listed in the evidence as an open miss)
             out.append((os.path.join(d, "patch.diff"), meta))
     # mutants of refactored trees (a stored refactoring with a break on top)
     for d in sorted(glob.glob(os.path.join(VERIF, "selftest", "stacked", "*"))):
@@ -126,7 +128,14 @@ def selftest(prop):
     missed = [r for r in res if not r.get("caught") and not r["status"].startswith("stale")]
     for r in missed:
         print("selftest: mutant not caught by %s: %s (%s)" % (prop, r["patch"], r["status"]), file=sys.stderr)
-    return {"mutants": len(ms), "caught": caught, "stale": stale, "missed": [r["patch"] for r in missed], "results": res}
+    open_misses = []
+    for d in sorted(glob.glob(os.path.join(VERIF, "seeded", "*"))):
+        mp = os.path.join(d, "meta.json")
+        if os.path.exists(mp):
+            m_ = json.load(open(mp))
+            if m_.get("property") == prop and (m_.get("open_miss") or m_.get("own_miss")) and prop not in m_.get("caught_by", []):
+                open_misses.append(os.path.relpath(os.path.join(d, "patch.diff"), VERIF))
+    return {"mutants": len(ms), "caught": caught, "stale": stale, "missed": [r["patch"] for r in missed], "known_open_misses": open_misses, "results": res}
 
 
 def witnesses():
